@@ -312,6 +312,19 @@ META = {
         note=NOTE_COMMON + "Runtime memory safety is evidenced, not proved.",
         technique="Lean 4 totality / bound theorems over models with explicit panic outcomes + differential runs under recover",
     ),
+    "C07": dict(
+        text="Proof (per stream, unbounded threads, all interleavings of the atomic-step model): lock ownership invariants, every "
+             "change of the writer / wire / in-flight write / message id is made by the write-lock owner (emit_under_write_lock, "
+             "single_writer), the history of appended frames is well-formed (stream id, ids non-decreasing and bounded by the counter, "
+             "one kind per id, frames of one id contiguous, nothing after the done frame), the wire is that history when no write "
+             "failed, a conforming reader (the C09 reference) never rejects it, and finished_is_final: once the finished flag is set no "
+             "thread can append a frame or start a transport write (the store-buffering argument over inspectMutex.held and the three "
+             "reads of checkFinished). Partial: the ordering of successive streams on one connection (manager) is explored by the e2e "
+             "suite's wire oracle, not proved.",
+        design_ref="DESIGN.md §6 C07, Appendix A.6",
+        note=NOTE_COMMON + "Sequential consistency of sync/atomic and mutex semantics trusted; thread-local steps merged (commute).",
+        technique="Lean 4 inductive invariants over an atomic-step transition system with unbounded threads + trace validation + wire oracles",
+    ),
 }
 
 _NYB = "check not built yet in this round (planned: Lean model + correspondence, see DESIGN.md §6)"
